@@ -384,6 +384,8 @@ struct World {
     dep: Address,
     xok: Address,
     xrev: Address,
+    dlg: Address,
+    dlg2: Address,
     bad_eof: bool,
 }
 
@@ -470,15 +472,27 @@ impl World {
         let m = self.maxn;
         self.put(m, Some(Bytecode::new_legacy(Bytes::from(std::mem::take(&mut a.0)))), U256::from(3), u64::MAX);
         // collider: its first two CREATEs hit occupied addresses (nonce / storage only)
-        a.create(&[0x60, 1, 0x60, 0, 0xf3], U256::ZERO, None).op(STOP);
+        a.create(&[0x60, 1, 0x60, 0, 0xf3], U256::from(1), None).op(STOP);
         self.col = self.deploy(std::mem::take(&mut a.0), 1);
         let c1 = self.col.create(1);
         let c2 = self.col.create(2);
+        let c3 = self.col.create(3);
         self.put(c1, None, U256::ZERO, 1);
         self.db.slots.insert((c2, U256::from(1)), U256::from(9));
+        // third address: balance 2^256-1, the endowment overflows (OverflowPayment); 4th ok; 5th OutOfFunds
+        self.put(c3, None, U256::MAX, 0);
         // creator of 300 bytes of code (called with little gas: the code deposit fails)
         a.create(&[0x61, 0x01, 0x2c, 0x60, 0, 0xf3], U256::ZERO, None).op(STOP);
         self.dep = self.deploy(std::mem::take(&mut a.0), 0);
+        if self.en(SpecId::PRAGUE) {
+            // EIP-7702 delegated accounts: to a contract, to an account without code
+            self.dlg = self.fresh();
+            let (d, o) = (self.dlg, self.okc);
+            self.put(d, Some(Bytecode::new_eip7702(o)), U256::from(2), 1);
+            self.dlg2 = self.fresh();
+            let d = self.dlg2;
+            self.put(d, Some(Bytecode::new_eip7702(e)), U256::from(2), 1);
+        }
         if self.en(SpecId::OSAKA) {
             self.xok = self.deploy_eof(eof_container(vec![STOP], 0, vec![]), 0);
             self.xrev = self.deploy_eof(eof_container(vec![PUSH0, PUSH0, REVERT], 2, vec![]), 0);
@@ -517,6 +531,11 @@ impl World {
             ("pc6", pc(6)),
             ("pc9", pc(9)),
         ];
+        if self.en(SpecId::PRAGUE) {
+            targets.push(("dlg", self.dlg));
+            targets.push(("dlg", self.dlg));
+            targets.push(("dlg2", self.dlg2));
+        }
         if self.en(SpecId::OSAKA) {
             targets.push(("xok", self.xok));
             targets.push(("xrev", self.xrev));
@@ -664,6 +683,8 @@ impl World {
         a.op(GAS).pushn(1000).op(SWAP1).op(SUB).op(CALL);
         let jpos = a.0.len();
         a.0.extend_from_slice(&[0x60, 0, JUMPI]);
+        // refused (deepest level): a CREATE from here is refused as well
+        a.pushn(0).pushn(0).pushn(0).op(CREATE).op(POP);
         a.pushn(0).op(CALLDATALOAD).pushn(0).op(MSTORE);
         let dest = a.0.len() as u8;
         a.0[jpos + 1] = dest;
@@ -678,8 +699,11 @@ impl World {
         let succ = vec![PUSH1, 32, PUSH0, PUSH0, RETURNDATACOPY, PUSH1, 32, PUSH0, RETURN];
         c.extend([RJUMPI, 0, succ.len() as u8]);
         c.extend(succ);
+        // refused (deepest level): an EOFCREATE from here is refused as well
+        c.extend([PUSH0, PUSH0, PUSH0, PUSH0, EOFCREATE, 0, POP]);
         c.extend([PUSH0, CALLDATALOAD, PUSH0, MSTORE, PUSH1, 32, PUSH0, RETURN]);
-        self.deploy_eof(eof_container(c, 4, vec![]), 0)
+        let init_rev = eof_container(vec![PUSH0, PUSH0, REVERT], 2, vec![]);
+        self.deploy_eof(eof_container(c, 4, vec![init_rev]), 0)
     }
     /// forwarder: calls `next` with word 1 as calldata and returns its 32-byte answer
     fn forwarder(&mut self, next: Address) -> Address {
@@ -751,6 +775,8 @@ fn exec_case(p: &Params, out: &mut Out) -> Result<Vec<(String, String)>, String>
         dep: z,
         xok: z,
         xrev: z,
+        dlg: z,
+        dlg2: z,
         bad_eof: false,
     };
     w.put(caller(), None, U256::from(1u64 << 50), 0);
